@@ -410,4 +410,56 @@ static void gs_family_zlib(int thorough, int (*mine)(uint64_t), uint64_t *idx, g
 						}
 	free(in);
 }
+
+/* F5: streams made by ISA-L's own compressor (default-table header -> the decoder's pre-generated-header shortcut,
+ * static blocks, dynamic levels 1-3, sync-flushed pieces). The reference decoder supplies the expected output check. */
+static void gs_family_isal(int thorough, int (*mine)(uint64_t), uint64_t *idx, gs_cb cb, void *ctx)
+{
+	static const int lens[] = { 0, 1, 9, 258, 300, 600, 4096, 8193, 70000 };
+	static const int pats[] = { PAT_TEXT, PAT_XS, PAT_ZERO, PAT_P3, PAT_P258 };
+	static uint8_t *in, *lb;
+	if (!in) {
+		in = malloc(70000);
+		lb = malloc(ISAL_DEF_LVL3_DEFAULT);
+	}
+	for (unsigned li = 0; li < sizeof lens / sizeof lens[0]; li++)
+		for (unsigned pi = 0; pi < (thorough ? 5 : 3); pi++)
+			for (int level = 0; level <= 3; level++)
+				for (int var = 0; var < 3; var++) {
+					if (level && var == 1)
+						continue;
+					uint64_t id = (*idx)++;
+					if (!mine(id))
+						continue;
+					int len = lens[li];
+					fill_pattern(in, len, pats[pi], len + pi);
+					struct isal_zstream s;
+					cpu_set_level(CPU_AVX2);
+					isal_deflate_init(&s);
+					s.level = level; s.level_buf = level ? lb : NULL; s.level_buf_size = level ? ISAL_DEF_LVL3_DEFAULT : 0;
+					if (var == 1)
+						isal_deflate_set_hufftables(&s, NULL, IGZIP_HUFFTABLE_STATIC);
+					s.flush = var == 2 ? SYNC_FLUSH : NO_FLUSH;
+					s.next_out = GS.body; s.avail_out = GS_MAXBODY;
+					size_t ip = 0;
+					int r = 0;
+					do {
+						size_t k = var == 2 ? (len - ip > 1000 ? 1000 : len - ip) : len - ip;
+						s.next_in = in + ip; s.avail_in = k;
+						ip += k;
+						s.end_of_stream = ip >= (size_t)len;
+						r = isal_deflate(&s);
+					} while (r == 0 && s.internal_state.state != ZSTATE_END);
+					if (r || s.internal_state.state != ZSTATE_END)
+						v_broken("isal_deflate failed while building the corpus");
+					GS.blen = s.total_out;
+					memcpy(GS.x, in, len);
+					GS.xlen = len;
+					GS.zlib_ok = 1;
+					GS.nblocks = 0;
+					GS.end_bit = 0;
+					snprintf(GS.desc, sizeof GS.desc, "F5 isal level=%d %s input=%s:%d", level, var == 0 ? "default" : var == 1 ? "static-table" : "sync-flush-every-1000", pat_name[pats[pi]], len);
+					cb(&GS, ctx);
+				}
+}
 #endif
